@@ -14,6 +14,9 @@ pub const NS: usize = 16;
 pub const NS: usize = 12;
 
 /// key words
+#[cfg(feature = "kw32")]
+pub const KW: usize = 32;
+#[cfg(not(feature = "kw32"))]
 pub const KW: usize = 6;
 
 #[cfg(feature = "vw96")]
@@ -52,12 +55,20 @@ pub const NADDR: usize = 5;
 pub const NE: usize = 8;
 #[cfg(not(feature = "ne8"))]
 pub const NE: usize = 4;
-#[cfg(feature = "ew32")]
+#[cfg(feature = "ew64")]
+pub const EW: usize = 64;
+#[cfg(all(feature = "ew32", not(feature = "ew64")))]
 pub const EW: usize = 32;
-#[cfg(not(feature = "ew32"))]
+#[cfg(not(any(feature = "ew32", feature = "ew64")))]
 pub const EW: usize = 10;
 /// foreign-call log
+#[cfg(feature = "nc12")]
+pub const NC: usize = 12;
+#[cfg(not(feature = "nc12"))]
 pub const NC: usize = 8;
+#[cfg(feature = "aw40")]
+pub const AW: usize = 40;
+#[cfg(not(feature = "aw40"))]
 pub const AW: usize = 16;
 /// auth log
 pub const NAUTH: usize = 6;
